@@ -7,7 +7,7 @@ from harness import inputs, oracle, parserb, tlc
 from harness.common import Scratch, VERSIONS, chunks, seed
 
 
-def programs(out, tier, prop, versions, per_version, rng, want_generated=True):
+def programs(out, tier, prop, versions, per_version, rng, want_generated=True, literals=False):
     """-> {version: [(text, origin)]}: stdlib chunks of the judging interpreter + ParserB sentences + mutations"""
     progs = {v: [] for v in versions}
     for v in versions:
@@ -19,6 +19,22 @@ def programs(out, tier, prop, versions, per_version, rng, want_generated=True):
             progs[v].append((c, 'stdlib'))
         for c in ch[:per_version // 3]:
             progs[v].append((inputs.mutate(c, rng), 'stdlib-mutated'))
+    if want_generated and literals:
+        sc = Scratch(prop + 'lit')
+        try:
+            n = 5 if tier == 'thorough' else 4
+            nums, r1 = inputs.tlc_strings(sc.sub('n'), n, inputs.NUM_ALPHABET)
+            strs, r2 = inputs.tlc_strings(sc.sub('s'), n, inputs.STRLIT_ALPHABET)
+            out.add('states', r1.distinct + r2.distinct)
+            out.add('transitions', r1.generated + r2.generated)
+            lits = ['x = %s\n' % s for s in nums if s] + ['x = %s\n' % s for s in strs if s]
+            if tier == 'quick':
+                longer = [''.join(rng.choice(inputs.NUM_ALPHABET) for _ in range(rng.randint(5, 8))) for _ in range(20000)]
+                lits += ['x = %s\n' % s for s in longer]
+            for i, t in enumerate(lits):
+                progs[versions[i % len(versions)]].append((t, 'literals'))
+        finally:
+            sc.cleanup()
     if want_generated:
         behs = _parserb.generate(out, tier, prop, envs=('valid',), versions=versions[:2] if tier == 'quick' else versions,
                                  num=300 if tier == 'quick' else 3000, exhaustive_valid=0)
